@@ -14,6 +14,23 @@ from sismic.interpreter import Interpreter  # noqa: E402
 from sismic.exceptions import ContractError  # noqa: E402
 from sismic.io import import_from_yaml  # noqa: E402
 
+from sismic.code import PythonEvaluator  # noqa: E402
+
+
+class EagerEvaluator(PythonEvaluator):
+    """A legitimate evaluator (documented evaluator_klass extension point): evaluate_* return *lists* of unsatisfied
+    conditions, as their docstrings say, i.e. every condition is evaluated as soon as the method is called."""
+
+    def evaluate_preconditions(self, obj, event=None):
+        return list(PythonEvaluator.evaluate_preconditions(self, obj, event))
+
+    def evaluate_invariants(self, obj, event=None):
+        return list(PythonEvaluator.evaluate_invariants(self, obj, event))
+
+    def evaluate_postconditions(self, obj, event=None):
+        return list(PythonEvaluator.evaluate_postconditions(self, obj, event))
+
+
 PID = 'C09'
 LEVEL = 'exploration'
 RULE = ('One case = (a) a generated chart with contracts (conditions are probes; in 1/3 of the cases some occurrences are '
@@ -24,7 +41,7 @@ RULE = ('One case = (a) a generated chart with contracts (conditions are probes;
         'Non-trivial = distinct runs with >= 10 condition evaluations on the checked side and 0 on the other.')
 ASSUMPTIONS = ['conditions of generated charts are side-effect free apart from the probe counter',
                'shipped charts: elevator_contract.yaml, microwave_with_contracts.yaml']
-REQUIRED_COUNTERS = ['steps_compared', 'runs_with_10plus_evaluations', 'shipped_chart_runs', 'runs_with_planned_failures',
+REQUIRED_COUNTERS = ['runs_with_eager_evaluator', 'steps_compared', 'runs_with_10plus_evaluations', 'shipped_chart_runs', 'runs_with_planned_failures',
                      'conditions_evaluated_checked_side', 'time_predicate_guard_steps']
 TIERS = dict(quick=dict(steps=30, gen=dict(max_states=12, max_depth=4, max_trans=14)),
              thorough=dict(steps=60, gen=dict(max_states=18, max_depth=5, max_trans=24)))
@@ -56,11 +73,15 @@ def run_case(acc, rnd, tier, case):
         cond_plan = lambda cid, i: fv(i, cid)      # noqa: E731
         acc.count('runs_with_planned_failures')
     sides = []
+    eager = rnd.random() < 0.3 and not failing
+    if eager:
+        acc.count('runs_with_eager_evaluator')
     for ignore in (False, True):
         sc, tmap = build.build_api(ch, coder=CODER)
         pr = Probes(val=make_val(valseed, p_true))
         pr.cond_plan = cond_plan
-        it = Interpreter(sc, initial_context=pr.context(v=0, box=Box(), lst=[], res={'h': Handle()}), ignore_contract=ignore)
+        it = Interpreter(sc, initial_context=pr.context(v=0, box=Box(), lst=[], res={'h': Handle()}), ignore_contract=ignore,
+                         evaluator_klass=EagerEvaluator if eager else PythonEvaluator)
         it.attach(pr.listener())
         sides.append((pr, it, Runner(it, tmap, log=pr.log)))
     (pa, ia, ra), (pb, ib, rb) = sides
